@@ -12,13 +12,14 @@
    |original - shifted| among lc+let / of cmp, one / one_cmp = largest 1 - value among lc+let / of cmp.
    kind = "bag": BagOfHypotheses with scores log(v_i) + constant, LM scores log(lm_i / 10), lm_weight = scale:
       post (exp of posteriors()), conf (confidence()), tconf (transcript_confidence of each hypothesis), tabsent (of a transcript
-      not in the bag), sumdev = |sum of exp(posteriors) - 1| and over in 1e-12 units.
+      not in the bag), sumdev = |sum of exp(posteriors) - 1| and over in 1e-12 units; the bag is built a second time with another
+      constant: dshift = largest change of any value, confdev = |confidence() - largest posterior| (1e-12 units).
 
    Property-level clauses (statement of C16; a failure is a VIOLATION): 1 no exception, 2 range [0,1] within 1e-9, 3 posteriors
    sum to 1 within 1e-9 * n, 4 shift invariance with the alignment held fixed within 1e-9 (compute_line_confidence only when the
    best symbol of every frame is unique - a tie may be broken differently after round-off), 5 the confident-line test gives the
    same answer for the shifted logits at thresholds strictly between attainable values, 6 it is monotone in the threshold,
-   7 one-hot posteriors give 1 within 1e-9.
+   7 one-hot posteriors give 1 within 1e-9, 8 the bag confidence equals the largest normalised posterior within 1e-9.
    With Strict = TRUE the values are also compared with the exact rationals of the design module (clauses 11..15, tolerance 2e-6):
    a mismatch there alone is MODEL-DRIFT, not a violation.                                                                 *)
 EXTENDS Confidence, TraceKit
@@ -57,6 +58,8 @@ JudgeBag ==
     IF Tr.outcome # "ok" THEN 1
     ELSE IF Tr.over > TOL THEN 2
     ELSE IF Tr.sumdev > TOL * NH THEN 3
+    ELSE IF Tr.dshift > TOL THEN 4                                      \* the same bag with a constant added to every score
+    ELSE IF Tr.confdev > TOL THEN 8                                     \* the bag confidence is the largest (normalised) posterior
     ELSE IF NH = 1 /\ (Tr.post[1] < 999999 \/ Tr.conf < 999999) THEN 7
     ELSE IF ~Strict THEN 0
     ELSE IF \E i \in 1..NH : ~ApproxQ(Tr.post[i], BagPost(i)) \/ ~ApproxQ(Tr.tconf[i], BagPost(i)) THEN 15
